@@ -1064,6 +1064,15 @@ def _read_unary_response(
     except RpcError:
         _drain_stream(reader)
         raise
+    except Exception:
+        # The call failed on the client's side of the wire -- ``on_log`` raised,
+        # or the result could not be fetched or resolved -- with the rest of the
+        # response still unread.  Consume it, so the connection (or the pooled
+        # worker it goes back to) is at a request boundary for the next call
+        # instead of handing that call this call's leftovers.
+        with contextlib.suppress(Exception):
+            _drain_stream(reader)
+        raise
     try:
         _drain_stream(reader)
         if not info.has_return:
